@@ -48,7 +48,16 @@
       are relativised to an invariant the kernels preserve as `compute()`/`init()` call them (`ExactKernelsOn`, `c01_histories_on`),
       and THAT is discharged for `HermSolver.hermKern` at `scOfField F` (`c01_hermKern_kernels`, `c01_histories_hermKern`):
       remaining hypotheses = exact sqrt, ideal rotations, `Sc.eps = 0` (deflation drops only exact zeros), `M` symmetric, the
-      run-level "no breakdown" set (`C01H.Reg`), and `eig_spec` (`C01H.EigSpec`, whole-run similarity of TridiagEigen);
+      run-level "no breakdown" set (`C01H.Reg`), and `eig_spec` (`C01H.EigSpec`);
+      `c01_histories_hermKern_full` REMOVES the `eig_spec` hypothesis: it is proved from C09's whole-run similarity of TridiagEigen
+      (`C09Sim.eigH_spec`) under `0 < min()` and the run-level hypothesis `C01H.ZeroDrop` (TridiagEigen's perturbation budget is 0
+      on the full regular states: its deflation test also uses the absolute `considerAsZero = min()`, so this cannot be a
+      constant-level hypothesis).  So for `Orch.compute (hermKern …)` at `scOfField F` the residual clause holds for every history
+      with NO kernel-specification hypothesis left; what remains are idealisation constants (exact sqrt, ideal rotations,
+      `Sc.eps = 0`, `0 < min()`), `M` symmetric, `1 ≤ nev < ncv`, and the two run-level hypotheses `Reg`, `ZeroDrop`.
+      `c01_histories_orth_hermKern`: orthonormality of the returned vectors likewise (`eig_orth` from C09 `ZᵀZ = I`, `V` from the
+      invariant); the injectivity of the two index vectors (`C01H.SortInj`, C18) is still a hypothesis.
+      NOT covered: the breakdown branch (`beta < near_0` → `expand_basis`), non-zero discards (error terms), rounding;
     * orthonormality of the basis `V` in floating point is FALSE for the code as it is on weak hand-overs / under the absolute
       breakdown thresholds (known findings F12*, see known_findings/C01.json): (2) takes `VᴴV = I` as a hypothesis.
 -/
@@ -67,6 +76,7 @@ import SpectraVerif.Proofs.C01Sort
 import SpectraVerif.Proofs.C01Toy
 import SpectraVerif.Proofs.C01DischargeOn
 import SpectraVerif.Proofs.C01DischargeHerm
+import SpectraVerif.Proofs.C01DischargeEig
 
 set_option linter.unusedSectionVars false
 set_option linter.unusedVariables false
@@ -425,6 +435,55 @@ theorem c01_hermKern_fresh (hsqrt : ∀ x : K, 0 ≤ x → F.sqrt x * F.sqrt x =
     (letI := scOfField F; PassInv n m A (Arnoldi.State.mk0 n m near0 eps) 0) :=
   fresh_passInv F hsqrt n m A near0 eps heps
 
+/-- **Every history, executable kernels, NO kernel-specification hypothesis** (`eig_spec` discharged by C09's whole-run similarity
+    of `TridiagEigen`).  Hypotheses: `hsqrt` exact square root, `hcut` ideal rotations, `heps : Sc.eps = 0`, `hmin : 0 < min()`, `hM`
+    symmetric, `1 ≤ nev < ncv`, and the run-level hypotheses on the user's closed set `G` of factorization states: `hR` (no breakdown)
+    and `hD` (`ZeroDrop`: TridiagEigen's perturbation budget `C09Sim.totalDrop` vanishes on the full states). -/
+theorem c01_histories_hermKern_full (hsqrt : ∀ x : K, 0 ≤ x → F.sqrt x * F.sqrt x = x ∧ 0 ≤ F.sqrt x) (hcut : C08Givens.cutoff F ≤ 0)
+    (heps : F.eps = 0) (hmin : 0 < F.minPos) (op : Arnoldi.Op K) (c : Cfg) (eps23 : K) (back : K → K) (n : ℕ)
+    (M : Matrix (Fin n) (Fin n) K) (hM : Mᵀ = M)
+    (G : (letI := scOfField F; Arnoldi.State K) → Prop) (S : Lin.Vec K → Prop)
+    (hop : (letI := scOfField F; OpOK n op (C01B.opOf M)))
+    (hR : (letI := scOfField F; Reg op n c.ncv (C01B.opOf M) G S)) (h1 : 1 ≤ c.nev) (h2 : c.nev < c.ncv)
+    (hD : ZeroDrop F c n (C01B.opOf M) G) :
+    letI := scOfField F
+    ∀ (hist : List (Call (Lin.Vec K) K)) (hS : StartsOk S hist) (s0 : St (Arnoldi.State K) K K (Lin.Vec K))
+      (h0 : HInv n c.ncv (C01B.opOf M) G s0.fac) (sel : Int) (maxit : Nat) (tol : K) (sorting : Int) (r : Nat)
+      (h : (compute (HermSolver.hermKern op c eps23 back) c sel maxit tol sorting
+              (Orch.run (HermSolver.hermKern op c eps23 back) c s0 hist)).out = .ok r),
+      let s' := (compute (HermSolver.hermKern op c eps23 back) c sel maxit tol sorting
+              (Orch.run (HermSolver.hermKern op c eps23 back) c s0 hist)).st
+      ∀ i ∈ convIdx c s', ∃ ν : K, s'.ritzVal.getD i Lin.zero = back ν ∧
+        nsq (M *ᵥ C07.vecOf n (HermSolver.assemble c.ncv s'.fac (s'.ritzVec.getD i (Lin.vzero c.ncv)))
+              - ν • C07.vecOf n (HermSolver.assemble c.ncv s'.fac (s'.ritzVec.getD i (Lin.vzero c.ncv))))
+          < (tol * max eps23 |ν|) ^ 2 :=
+  histories_hermKern_full F hsqrt hcut heps hmin op c eps23 back n M hM G S hop hR h1 h2 hD
+
+/-- **Orthonormality of the returned vectors, executable kernels**: `x_i · x_i' = δ` after every history; `eig_orth` from C09
+    (`ZᵀZ = I` for every run of TridiagEigen), `VᵀV = I` from the invariant; remaining hypothesis besides those of
+    `c01_histories_hermKern_full`: `hInj` — the two index vectors are injective (C18; not yet proved for the wrappers). -/
+theorem c01_histories_orth_hermKern (hsqrt : ∀ x : K, 0 ≤ x → F.sqrt x * F.sqrt x = x ∧ 0 ≤ F.sqrt x) (hcut : C08Givens.cutoff F ≤ 0)
+    (heps : F.eps = 0) (hmin : 0 < F.minPos) (op : Arnoldi.Op K) (c : Cfg) (eps23 : K) (back : K → K) (n : ℕ)
+    (M : Matrix (Fin n) (Fin n) K) (hM : Mᵀ = M)
+    (G : (letI := scOfField F; Arnoldi.State K) → Prop) (S : Lin.Vec K → Prop)
+    (hop : (letI := scOfField F; OpOK n op (C01B.opOf M)))
+    (hR : (letI := scOfField F; Reg op n c.ncv (C01B.opOf M) G S)) (h1 : 1 ≤ c.nev) (h2 : c.nev < c.ncv)
+    (hD : ZeroDrop F c n (C01B.opOf M) G) (hInj : SortInj F c) :
+    letI := scOfField F
+    ∀ (hist : List (Call (Lin.Vec K) K)) (hS : StartsOk S hist) (s0 : St (Arnoldi.State K) K K (Lin.Vec K))
+      (h0 : HInv n c.ncv (C01B.opOf M) G s0.fac) (sel : Int) (maxit : Nat) (tol : K) (sorting : Int) (r : Nat)
+      (h : (compute (HermSolver.hermKern op c eps23 back) c sel maxit tol sorting
+              (Orch.run (HermSolver.hermKern op c eps23 back) c s0 hist)).out = .ok r),
+      let s' := (compute (HermSolver.hermKern op c eps23 back) c sel maxit tol sorting
+              (Orch.run (HermSolver.hermKern op c eps23 back) c s0 hist)).st
+      ∀ i ∈ convIdx c s', ∀ i' ∈ convIdx c s',
+        C07.vecOf n (HermSolver.assemble c.ncv s'.fac (s'.ritzVec.getD i (Lin.vzero c.ncv))) ⬝ᵥ
+          C07.vecOf n (HermSolver.assemble c.ncv s'.fac (s'.ritzVec.getD i' (Lin.vzero c.ncv))) = if i = i' then 1 else 0 := by
+  letI := scOfField F
+  intro hist hS s0 h0 sel maxit tol sorting r h
+  exact histories_orth_on _ (hermOrthFull F hsqrt hcut heps hmin op c eps23 back n M hM G S hop hR h1 h2 hD hInj)
+    hist hS s0 h0 sel maxit tol sorting r h
+
 end hermKern
 
 /-! ### the hypotheses are satisfiable; a run through the theorems -/
@@ -452,19 +511,21 @@ example :
 /-- the hypotheses of `c01_histories_hermKern` are CONSISTENT (together with the start invariant `h0` for the freshly constructed
     object): over `ℝ` with `Real.sqrt`, a `pow` that switches the series branch off and `eps = 0`; witness with the trivial operator on
     `ℝ⁰` (`ncv = 2`, `nev = 1`), `G` = "dimension 0", no admissible start vector — there `EigSpec` and `Reg` hold because no full
-    factorization exists.  (A witness with a non-trivial run needs `eig_spec` for the real `TridiagEigen`, the open item.) -/
+    factorization exists.  (A NON-TRIVIAL witness is not given: `hsqrt` needs a total exact square root, so the field must be `ℝ`-like,
+    and the array model with `Real.sqrt` cannot be evaluated by `decide`/`norm_num`; over `ℚ` no `FieldFns` satisfies `hsqrt`.) -/
 example : ∃ F : FieldFns ℝ, (∀ x : ℝ, 0 ≤ x → F.sqrt x * F.sqrt x = x ∧ 0 ≤ F.sqrt x) ∧ C08Givens.cutoff F ≤ 0 ∧ F.eps = 0 ∧
     ∃ (op : Arnoldi.Op ℝ) (M : Matrix (Fin 0) (Fin 0) ℝ) (G : (letI := scOfField F; Arnoldi.State ℝ) → Prop) (S : Lin.Vec ℝ → Prop),
       Mᵀ = M ∧ (letI := scOfField F; C07L.OpOK 0 op (C01B.opOf M)) ∧
       (letI := scOfField F; C01H.Reg op 0 2 (C01B.opOf M) G S) ∧
       (letI := scOfField F; C01H.EigSpec ⟨0, 1, 2⟩ 0 (C01B.opOf M)) ∧
-      (letI := scOfField F; C01H.HInv 0 2 (C01B.opOf M) G (Arnoldi.State.mk0 0 2 1 0)) := by
+      (letI := scOfField F; C01H.HInv 0 2 (C01B.opOf M) G (Arnoldi.State.mk0 0 2 1 0)) ∧
+      0 < F.minPos ∧ C01H.ZeroDrop F ⟨0, 1, 2⟩ 0 (C01B.opOf M) G := by
   let F0 : FieldFns ℝ := ⟨Real.sqrt, fun _ _ => 0, 0, 1⟩
   letI : Sc ℝ := scOfField F0
   have hs : ∀ x : ℝ, 0 ≤ x → F0.sqrt x * F0.sqrt x = x ∧ 0 ≤ F0.sqrt x :=
     fun x hx => ⟨Real.mul_self_sqrt hx, Real.sqrt_nonneg x⟩
   refine ⟨F0, hs, by simp [C08Givens.cutoff, F0], rfl, ⟨0, fun _ => #[], none⟩, 0,
-    fun (s : Arnoldi.State ℝ) => s.k = 0, fun _ => False, ?_, ?_, ?_, ?_, ?_⟩
+    fun (s : Arnoldi.State ℝ) => s.k = 0, fun _ => False, ?_, ?_, ?_, ?_, ?_, by simp [F0], ?_⟩
   · ext i; exact i.elim0
   · exact ⟨rfl, fun x _ => by funext r; exact r.elim0, fun x => rfl⟩
   · refine ⟨fun v0 h => h.elim, fun s v0 s' _ h => h.elim, ?_, ?_⟩
@@ -479,6 +540,10 @@ example : ∃ F : FieldFns ℝ, (∀ x : ℝ, 0 ≤ x → F.sqrt x * F.sqrt x = 
     have := hI.on 0 (by norm_num) 0 (by norm_num)
     simp [C01E.dotIP, dotProduct] at this
   · exact ⟨C01H.fresh_passInv F0 hs 0 2 _ 1 0 (le_refl 0), rfl⟩
+  · intro s _ hI
+    exfalso
+    have := hI.on 0 (by norm_num) 0 (by norm_num)
+    simp [C01E.dotIP, dotProduct] at this
 
 /-- **Why `β = ‖f‖` cannot be dropped from (1)** — the exact-arithmetic face of known finding F12-C01-residual-abs.  The shortcut
     `beta < eps*sqrt(n) ⇒ f := 0, beta := 0` of `Lanczos::factorize_from` makes `β` stop being the norm of the residual the relation
